@@ -8,6 +8,7 @@
 //@@ include iter.rs
 //@@ include xcheck.rs
 //@@ include opspec.rs
+//@@ include tokpart.rs
 //@@ include remap.rs
 //@@ include reconstruct.rs
 //@@ props ^SliceRemapper::|^TextDiffRemapper::|^lemma_slice|^lemma_hyp_contig$|^lemma_cat_|^lemma_contig_mono$|^lemma_lsum_mono$ : C17
